@@ -508,7 +508,7 @@ class Unit(Translator):
         if not fields and not as_stdfn:
             if op['id'] not in self.cname_of:
                 op['_lambda_free'] = True
-                k = sum(1 for x in self.fn_by_cname if x.startswith(P.cname + '__lambda'))
+                k = sum(1 for x in list(self.fn_by_cname) if x.startswith(P.cname + '__lambda'))
                 cn = '%s__lambda%d' % (P.cname, k)
                 self.fn_by_cname[cn] = op; self.cname_of[op['id']] = cn
                 self.srcinfo[cn] = self._src_range(op)
@@ -521,7 +521,7 @@ class Unit(Translator):
         if op['id'] in self.cname_of:
             cn = self.cname_of[op['id']]          # already named by an earlier translation pass of the same unit
         else:
-            k = sum(1 for x in self.fn_by_cname if x.startswith(P.cname + '__lambda'))
+            k = sum(1 for x in list(self.fn_by_cname) if x.startswith(P.cname + '__lambda'))
             cn = '%s__lambda%d' % (P.cname, k)
         cl = 'closure_' + cn
         caps = {}; decls = []; vals = []
